@@ -257,7 +257,8 @@ def check_case(case, res=None):
                 break
             lex = sql[s : e_ + 1]
             name = n.name
-            if name.lower() not in lex.lower() and name.replace('"', '""').lower() not in lex.lower():
+            # a lexeme with a backslash may spell the value through an escape sequence ('a\b' -> a<BS> in Redshift): no text comparison then
+            if "\\" not in lex and name.lower() not in lex.lower() and name.replace('"', '""').lower() not in lex.lower():
                 fails.append((f"node-position-wrong-lexeme|{d or 'base'}", f"{sql!r}: identifier {name!r} meta selects {lex!r}"))
                 break
             line, col = ref_pos(sql, e_)
